@@ -22,9 +22,12 @@ theorem appx_resign_replaces (z : Bytes) (g : Digested) (ps : Parts) (r : Signed
               ((writeDirectory (d5Of g ps) true).1 ++ (writeDirectory (d5Of g ps) true).2.1)) :=
   (assemble_ok h).2.1
 
-/-- full statement (not proved): re-reading relic's own output with `digest` yields the same payload state and
-    `patchStart`, hence signing the output again with the same parts returns the same file and streams.  Needs the
-    round trip `ReadWithDirectory ∘ WriteDirectory`; checked per op by the differential run (round 2 byte for byte). -/
+/-- full statement as first written: re-reading relic's own output with `digest` yields the same payload state and
+    `patchStart`, hence signing the output again with the same parts returns the same file and streams.  As stated (SOME
+    codec `c'`, no claim that the second signing succeeds) it holds vacuously: `C08.appx_resign_replaces_vacuous` in
+    C08_AppxFull.lean.  The meaningful statement (same codec, the second signing succeeds and reproduces file and streams)
+    is proved there as `C08.appx_resign_idempotent`, on the round trip `ReadWithDirectory ∘ WriteDirectory`
+    (`C17.read_write_directory_own_output`); also checked per op by the differential run (round 2 byte for byte). -/
 def appx_resign_replaces_full : Prop :=
   ∀ (c : Codec) (z : Bytes) (ps : Parts) (r : Signed), sign c z ps = .ok r →
     (∀ x, c.inflate x = none → True) →
